@@ -60,6 +60,12 @@ pub fn expected_results(stream: &[u8], compressed: bool) -> (Vec<ReadResult>, Ve
 
 /// Run a read-only session to the end of the stream and beyond (two extra reads after Disconnected).
 pub fn run_read_case(which: Impl, case: &ReadCase) -> ReadOutcome {
+    run_read_case_pre(which, case, 0)
+}
+
+/// As `run_read_case`, after `refused_first` writes of packets that cannot be encoded (each must fail and leave nothing
+/// behind on the connection).
+pub fn run_read_case_pre(which: Impl, case: &ReadCase, refused_first: usize) -> ReadOutcome {
     let h = Handle::new(case.stream.clone(), case.read_plan.clone(), case.write_plan.clone());
     h.with(|s| s.default_read = case.default_read);
     if case.flush > 0 && which == Impl::Tokio {
@@ -69,6 +75,14 @@ pub fn run_read_case(which: Impl, case: &ReadCase) -> ReadOutcome {
         });
     }
     let mut conn = Conn::new(which, &h, case.compressed, case.verify_version);
+    for k in 0..refused_first {
+        let bad = if k % 2 == 0 {
+            insim::Packet::Cpp(insim::insim::Cpp { time: std::time::Duration::from_secs(70), ..Default::default() })
+        } else {
+            insim::Packet::Isi(insim::insim::Isi { interval: std::time::Duration::from_secs(70), iname: "refused".into(), ..Default::default() })
+        };
+        let _ = crate::ctx::guarded(|| conn.write(&h, bad));
+    }
     let (_, sizes) = expected_results(&case.stream, case.compressed);
     let transient_injected = case.read_plan.iter().filter(|a| matches!(a, RAct::Error(_))).count();
     let max_calls = sizes.len() + transient_injected + 8;
